@@ -1780,14 +1780,40 @@ class Module(ABC):
         if name in channel_names:
             channel_cols = list(channel.channel_params.keys())
             channel_cols += list(channel.channel_states.keys())
-            self.base.nodes.loc[self._nodes_in_view, channel_cols] = float("nan")
             self.base.nodes.loc[self._nodes_in_view, name] = False
+
+            # Parameters (e.g. `vt`, `eK`, `eCa`) and currents (e.g. `i_K`) can be shared
+            # with other channels. They must be kept wherever such a channel remains.
+            other_channels = [c for c in self.base.channels if c._name != name]
+            owned_only_by_channel = []
+            for col in channel_cols:
+                other_owners = [
+                    c._name
+                    for c in other_channels
+                    if col in c.channel_params or col in c.channel_states
+                ]
+                still_needed = np.zeros(len(self._nodes_in_view), dtype=bool)
+                if len(other_owners) > 0:
+                    still_needed = (
+                        self.base.nodes.loc[self._nodes_in_view, other_owners]
+                        .astype(bool)
+                        .any(axis=1)
+                        .to_numpy()
+                    )
+                else:
+                    owned_only_by_channel.append(col)
+                self.base.nodes.loc[self._nodes_in_view[~still_needed], col] = float(
+                    "nan"
+                )
 
             # only delete cols if no other comps in the module have the same channel
             if np.all(~self.base.nodes[name]):
                 self.base.channels.pop(all_channel_names.index(name))
-                self.base.membrane_current_names.remove(channel.current_name)
-                self.base.nodes.drop(columns=channel_cols + [name], inplace=True)
+                if channel.current_name not in [c.current_name for c in other_channels]:
+                    self.base.membrane_current_names.remove(channel.current_name)
+                self.base.nodes.drop(
+                    columns=owned_only_by_channel + [name], inplace=True
+                )
         else:
             raise ValueError(f"Channel {name} not found in the module.")
 
